@@ -32,6 +32,12 @@ CLAIMED = {
  "C10": ("finite evaluation of the caching predicates; effect/lock path analysis of write, read, schema-acquisition, flusher, flush and delete entries under the async valuations",
          "Decides the structural half of async writes: async implies cached (truth table); accepted writes are in cache and pending store before return; lookups consult the cache before the file; the flusher starter is called on both schema-acquisition branches; the background flush runs under the write lock after re-checking the context; FlushAll/FlushAllAndCommit/Close always call flush (and commit); every iteration of the map flush writes and drops; a delete drops the pending entry. Timing (threshold/timeout firing in time) is not decided.",
          "Trusts go/ssa and the effect tables; per-type pending maps are assumed present for the 'what is pending gets flushed' rules.", "DESIGN.md 4 C10"),
+ "C11": ("loop-structure and path analysis of the schema control, loader, Repair and Control (both set inclusions, ordering, publication under errors.Is valuations, NOT-REACH of object-file mutation)",
+         "Decides the structure behind 'Control detects, Repair restores': the schema control has both inclusion loops, each able to report ErrIndexCorrupted after its membership lookup; the index-level control (ordering + size per field) runs before the directory is listed; a schema with a corrupted index is still published and returned with the error while any other load error publishes nothing; Repair never mutates object files, indexes files only after reading them and through the constraint-checking insertion, drops entries without file; Control() covers every loaded schema. The value-level 'if and only if' and search results after Repair are not decided.",
+         "Trusts go/ssa, the effect tables and the recognition of the directory set (result of the function that lists the directory).", "DESIGN.md 4 C11"),
+ "C17": ("effect-order path analysis (schema acquisition before any file mutation, publication gated by control, Create ordering under file-exists valuations), structural symmetry check of the descriptor comparisons, nil-fact analysis of settings dereferences",
+         "Decides that no handle entry point (except Drop/Create) mutates a file on a path without a successfully acquired schema, that a loaded schema is published only after a successful control, that Create assigns settings and overwrites the schema file only after the compatibility check and writes a new schema file only when none exists, that the descriptor comparisons are symmetric, and that the async settings pointer is only dereferenced where known non-nil. Behaviour after a live settings switch is NOT decided beyond that (two known findings: the flusher's unguarded dereference).",
+         "Trusts go/ssa and the effect tables; file-exists and errors.Is outcomes are explored as valuations.", "DESIGN.md 4 C17"),
 }
 
 NOT_BUILT = "check not built yet in this round (planned, see DESIGN.md section 4)"
